@@ -108,8 +108,68 @@ def run_inputs_case(c):
     return fails
 
 
+VECOPS = {
+    # name: (equations, extra variables, python expression of dx/dt over x, W, B, c (numpy))
+    "V1-lhs-index-variable-first-use": (["index(u, B) = c*index_range(x, 0, 2)", "d/dt * x = -x + matvec(W, tanh(x)) + u"], {},
+                                        "(-x + W @ np.tanh(x) + put(np.zeros(6), B, c*x[0:2]))"),
+    "V2-index-variable-rhs-then-lhs": (["v = index(x, B)", "index(u, B) = c*v", "d/dt * x = -x + matvec(W, tanh(x)) + u"], {"v": 2},
+                                       "(-x + W @ np.tanh(x) + put(np.zeros(6), B, c*x[B]))"),
+    "V3-literal-index-and-range": (["d/dt * x = -x + c*index(x, 2) + vsum(index_range(x, 1, 4))"], {}, "(-x + c*x[2] + np.sum(x[1:4]))"),
+    "V4-lhs-range": (["index_range(u, 2, 4) = c*index(x, B)", "d/dt * x = -x + u"], {}, "(-x + put(np.zeros(6), np.array([2, 3]), c*x[B]))"),
+}
+
+
+def vecop_case(c):
+    """One node with vector-valued variables and index helpers on both sides of equations: the vector field of every backend
+    against the NumPy meaning of the helpers (0-based, end-exclusive ranges)."""
+    from pyrates import CircuitTemplate, NodeTemplate, OperatorTemplate
+    eqs, extra, expr = VECOPS[c["name"]]
+    N = 6
+    W = (np.arange(N * N).reshape(N, N) % 7 - 3) / 8.0
+    B = np.asarray([1, 3])
+    x0 = np.arange(N) / 8.0 + 0.125
+    cc = 0.5
+    variables = {"x": {"vtype": "output", "value": x0.copy(), "shape": (N,), "dtype": "float"},
+                 "u": {"vtype": "variable", "value": np.zeros(N), "shape": (N,), "dtype": "float"},
+                 "W": {"vtype": "constant", "value": W.copy(), "shape": (N, N), "dtype": "float"},
+                 "B": {"vtype": "constant", "value": B.copy(), "shape": (2,), "dtype": "int"}, "c": cc}
+    for name, n in extra.items():
+        variables[name] = {"vtype": "variable", "value": np.zeros(n), "shape": (n,), "dtype": "float"}
+    used = " ".join(eqs)
+    variables = {k: v for k, v in variables.items() if k in ("x", "c") or k in used.replace("(", " ").replace(")", " ").replace(",", " ").split()}
+
+    def put(arr, idx, vals):
+        arr = arr.copy()
+        arr[idx] = vals
+        return arr
+    b = c["backend"]
+    try:
+        op = OperatorTemplate(name="vop", equations=list(eqs), variables=variables, path=None)
+        tpl = CircuitTemplate(name="net", nodes={"a": NodeTemplate(name="vnode", operators=[op], path=None)})
+        func, args, keys, idx = tpl.get_run_func(f"vf_{b}", step_size=1e-2, backend=b, vectorize=False, verbose=False, float_precision="float64",
+                                                 file_name=f"vecop_{b}", clear=False, solver="scipy", in_place=False)
+    except Exception as exn:
+        return dict(status="violated", fails=[dict(clause="vector operator with index helpers compiles on this backend", observed=f"{type(exn).__name__}: {exn}"[:300])])
+    rng = np.random.RandomState(7 + c.get("seed", 0))
+    fails = []
+    for y in [x0] + [np.round(rng.uniform(-1, 1, N) * 64) / 64 for _ in range(2)]:
+        want = np.asarray(eval(expr, dict(np=np, x=y, W=W, B=B, c=cc, put=put)), dtype=float)
+        try:
+            got = oracle.eval_field(dict(func=func, args=args, names=keys, backend=b), np.asarray(y, dtype=float), 0.0)
+        except Exception as exn:
+            return dict(status="violated", fails=[dict(clause="vector operator: generated function is callable", observed=f"{type(exn).__name__}: {exn}"[:300])])
+        got = np.asarray(got, dtype=float).ravel()
+        if got.shape != want.shape or not np.allclose(got, want, rtol=1e-9, atol=1e-12):
+            fails.append(dict(clause="index helpers (index / index_range on either side of an equation) mean the same 0-based, end-exclusive "
+                                     "selection on every backend", observed=got.tolist(), expected=want.tolist()))
+            break
+    return dict(status="violated" if fails else "ok", fails=fails)
+
+
 def dispatch(c):
     k = c["kind"]
+    if k == "vecop":
+        return vecop_case(c)
     if k == "ring":
         return ring_case(c)
     if k == "loops":
@@ -195,7 +255,14 @@ def families(tier, seed):
                 dt = 0.1
                 out.append(dict(tag=f"loop/{b}/{solver}/{steps}/{m}/{t0}", features=dict(backend=b, solver=solver), kind="loops", backend=b,
                                 solver=solver, dt=dt, dts=m * dt, T=steps * dt, t0=t0, coef=[-0.75, 0.5, 0.25], y0=[0.5, -1.25]))
+            # decimal (T, dt) pairs whose float quotient lies just below / above an integer: the step count is round(T/dt) on every backend
+            for (T, dt, dts) in ((0.3, 0.1, 0.1), (0.7, 0.1, 0.1), (0.6, 0.05, 0.05), (0.9, 0.3, 0.3), (1.1, 0.1, 0.1)):
+                out.append(dict(tag=f"loop-decimal/{b}/{solver}/{T}/{dt}", features=dict(backend=b, solver=solver), kind="loops", backend=b,
+                                solver=solver, dt=dt, dts=dts, T=T, t0=0, coef=[-0.75, 0.5, 0.25], y0=[0.5, -1.25]))
     out.append(dict(tag="precision-history/jax", features=dict(backend="jax"), kind="precision_history", backend="jax", seed=seed))
+    for name in VECOPS:
+        for b in BACKENDS:
+            out.append(dict(tag=f"{name}/{b}", features=dict(backend=b, vecop=name), kind="vecop", name=name, backend=b, seed=seed))
     return out
 
 
@@ -208,7 +275,8 @@ def main():
              "non-linearities against the spec at random states and parameter draws (float64), vectorised rings on torch/jax; "
              "trajectories with a seeded time-dependent input for every solver the backend implements itself (dts = 3 and 5 steps) and "
              "scipy with linear interpolation of the input; roll on a 16-vector with one- and two-digit shifts; the Torch and JAX "
-             "fixed-step loops called directly with an affine time-dependent field (steps, cadence, t0); a float64 JAX model after a "
+             "fixed-step loops called directly with an affine time-dependent field (steps, cadence, t0; decimal (T, dt) pairs whose float "
+             "quotient is not an integer); a float64 JAX model after a "
              "float32 compilation; distinct = case tags",
         sample_of=lambda c: {k: v for k, v in c.items() if k not in ("features", "model", "inputs")})
     rc = chk.finish(
